@@ -226,12 +226,18 @@ class Rec:
             return self._hprobe.hashes(key)
         return obj.hashes(key)
 
+    def qf_hash(self, key):
+        """the 32-bit hash the quotient filter derives from a key: the recorder builds these filters with the default strategy"""
+        from probables.hashes import fnv_1a_32
+
+        return fnv_1a_32(key, 0)
+
     def do_add(self, key, *a):
         obj, kind = self.obj, self.kind
         if kind in ("cko", "ccko", "bits") or self.erand.random() >= 0.3:
             return obj.add(key, *a)
         if kind == "qf":
-            return obj.add_alt(obj._hash_func(key, 0))
+            return obj.add_alt(self.qf_hash(key))
         if kind in ("hh", "st"):
             return obj.add_alt(key, self.hashes_of(key), *a)
         return obj.add_alt(self.hashes_of(key), *a)
@@ -241,7 +247,7 @@ class Rec:
         if kind in ("cko", "ccko", "bits", "hh") or self.erand.random() >= 0.3:
             return obj.remove(key, *a)
         if kind == "qf":
-            return obj.remove_alt(obj._hash_func(key, 0))
+            return obj.remove_alt(self.qf_hash(key))
         if kind == "st":
             return obj.remove_alt(key, self.hashes_of(key), *a)
         return obj.remove_alt(self.hashes_of(key), *a)
@@ -254,7 +260,7 @@ class Rec:
         if kind in ("cko", "ccko", "bits", "hh", "st") or r >= 0.4:
             return obj.check(key)
         if kind == "qf":
-            return obj.check_alt(obj._hash_func(key, 0))
+            return obj.check_alt(self.qf_hash(key))
         return obj.check_alt(self.hashes_of(key))
 
     def probes(self, idxs):
@@ -525,7 +531,10 @@ class Rec:
             return
         try:
             if kind == "qf":
-                snap = lambda: (obj.elements_added, obj.quotient, bytes(obj._filter), bytes(obj._is_occupied.bitarray), bytes(obj._is_shifted.bitarray), bytes(obj._is_continuation.bitarray))  # noqa
+                if all(hasattr(obj, a) for a in ("_filter", "_is_occupied", "_is_shifted", "_is_continuation")):
+                    snap = lambda: (obj.elements_added, obj.quotient, bytes(obj._filter), bytes(obj._is_occupied.bitarray), bytes(obj._is_shifted.bitarray), bytes(obj._is_continuation.bitarray))  # noqa
+                else:      # refactored internals: the public projection
+                    snap = lambda: (obj.elements_added, obj.quotient, sorted(obj.get_hashes()))  # noqa
             elif kind in ("hh", "st"):
                 snap = lambda: (bytes(obj), obj.elements_added, dict(obj.heavy_hitters if kind == "hh" else obj.meets_threshold))  # noqa
             else:
